@@ -55,8 +55,12 @@ example : (cropPoints w0 [9, 9, 9] [[some (15/4), some (5/2), none], [some (17/4
     = some [Item.all, .slice (some 1) (some 4) none, .slice (some 1) (some 5) none] := by decide +kernel
 
 -- a point before the start of the array is clipped, not wrapped; the on-array point stays inside
-example : cropAxis false [-1, 2] = .slice (some 0) (some 3) none := by decide
-example : cropAxis false [3, 3] = .int 3 ∧ cropAxis true [3, 3] = .slice (some 3) (some 4) none := by decide
+example : cropAxis false 5 [-1, 2] = .slice (some 0) (some 3) none := by decide
+example : cropAxis false 5 [3, 3] = .int 3 ∧ cropAxis true 5 [3, 3] = .slice (some 3) (some 4) none := by decide
+-- one pixel wide after clipping, at either end of an axis of 5: dropped without keepdims
+example : cropAxis false 5 [-1, 0] = .int 0 ∧ cropAxis false 5 [4, 5] = .int 4 ∧
+    cropAxis true 5 [4, 6] = .slice (some 4) (some 5) none := by decide
+example : (cropItem [5, 5] [[4, 5], [4, 6]] false).toOption = none := by decide
 example : (cropItem [5, 5] [[1], [2, 2]] false).toOption = none ∧ (cropItem [5, 5] [[1], [2, 3]] false).toOption = some [.int 1, .slice (some 2) (some 4) none]
     ∧ (cropItem [5, 5] [[1, 2], [-1]] false).toOption = none ∧ (cropItem [5, 5] [[1, 2], [5, 7]] false).toOption = none := by decide
 example : nearest (5/2) = 3 ∧ nearest (-1/2) = 0 ∧ nearest (-3/4) = -1 := by decide +kernel
